@@ -235,10 +235,10 @@ def run_print(chk, bindir, tier):
     for i in j[0]["bad"]:
         r = allr[i - 1]
         if r["op"] == "print":
-            kind = "lost_or_duplicated" if r["mismatch"] != -1 or r["rlen"] > r["len"] else "incomplete"
+            kind = "wrong_descriptor" if r.get("stray") else ("lost_or_duplicated" if r["mismatch"] != -1 or r["rlen"] > r["len"] else "incomplete")
             chk.violate({"op": "print", "kind": kind},
-                        "%s of %d bytes over a pipe (%d signals): descriptor received %d bytes, first difference at %d, newline %s, result %s" % (
-                            r["kind"], r["len"], r["signals"], r["rlen"], r["mismatch"], r["nl"], {0: "Err", 1: "Ok", 2: "discarded"}[r["ok"]]),
+                        "%s of %d bytes over a pipe (%d signals): descriptor received %d bytes (%d on the other standard descriptor), first difference at %d, newline %s, result %s" % (
+                            r["kind"], r["len"], r["signals"], r["rlen"], r.get("stray", 0), r["mismatch"], r["nl"], {0: "Err", 1: "Ok", 2: "discarded"}[r["ok"]]),
                         {"mode": "print", "record": r})
         else:
             kind = "error" if r["ok"] != 1 else ("count" if r["mismatch"] == -1 and r["rlen"] == r["len"] else "lost_or_duplicated")
